@@ -170,7 +170,12 @@ let artnet_op (args : string list) : string =
           a_sub = false; a_roc = true;
           a_ob = n_of_int (if ou2 >= 16 then 256 else ((sub lsl 4) lor (ou2 land 15)) land 255); a_buf2 = dbuf_of_s b2;
           a_from = n_of_int 2; a_ltp = (match rest with m :: _ -> m = "1" | [] -> false);
-          a_s0 = (None, None); a_s1 = (None, None) }
+          a_s0 = (None, None); a_s1 = (None, None);
+          a_pend = (match rest with _ :: _ :: _ :: _ :: p :: _ when p <> "-" ->
+                      (match String.split_on_char ':' p with
+                       | [cc; pid; sub; su; du] -> Some ((((bytes_of_hex su, bytes_of_hex du), n_of_int (ios pid)), n_of_int (ios sub)), n_of_int (ios cc))
+                       | _ -> failwith "bad pending request")
+                    | _ -> None) }
       | _ -> failwith "bad config" in
     let t = new_trace () in
     let st = ref st0 in
@@ -179,9 +184,10 @@ let artnet_op (args : string list) : string =
       | EvTx -> "P" | EvData p -> "D" ^ string_of_int (int_of_n p) | EvDisc p -> "Q" ^ string_of_int (int_of_n p)
       | EvFlush p -> "F" ^ string_of_int (int_of_n p)
       | EvRdm (p, r) -> "R" ^ string_of_int (int_of_n p) ^ hex_of_bytes r
-      | EvTod us -> "T" ^ String.concat "," (List.map uid_s us) in
+      | EvTod us -> "T" ^ String.concat "," (List.map uid_s us)
+      | EvResp r -> "A0." ^ hex_of_bytes r in
     let ev_c e = match e with
-      | EvTx -> "poll" | EvData _ -> "dmx" | EvDisc _ -> "discover" | EvFlush _ -> "flush" | EvRdm _ -> "rdm" | EvTod _ -> "tod" in
+      | EvTx -> "poll" | EvData _ -> "dmx" | EvDisc _ -> "discover" | EvFlush _ -> "flush" | EvRdm _ -> "rdm" | EvTod _ -> "tod" | EvResp _ -> "rdmresp" in
     (try List.iter (fun dg ->
       (* optional prefix s<k>. : the datagram comes from 10.0.0.(2+k) *)
       let from, dg = (if String.length dg > 2 && dg.[0] = 's' then
